@@ -5,14 +5,17 @@ use crate::proto::{big_ratio, big_to_f64};
 pub struct Mode {
     pub rel: f64,
     pub int_out: bool,
+    /// plain integer output: a null is NaN's integer cast (0); false for Option<i32> (None)
+    pub null_is_zero: bool,
 }
 
 impl Mode {
     pub fn of(o: &str) -> Mode {
         match o {
-            "f32" => Mode { rel: 2e-5, int_out: false },
-            "i32" | "oi32" => Mode { rel: 1e-9, int_out: true },
-            _ => Mode { rel: 1e-9, int_out: false },
+            "f32" => Mode { rel: 2e-5, int_out: false, null_is_zero: false },
+            "i32" => Mode { rel: 1e-9, int_out: true, null_is_zero: true },
+            "oi32" => Mode { rel: 1e-9, int_out: true, null_is_zero: false },
+            _ => Mode { rel: 1e-9, int_out: false, null_is_zero: false },
         }
     }
 }
@@ -75,7 +78,7 @@ pub fn tok_eq(impl_t: &str, model_t: &str, m: Mode) -> bool {
         // integer output: NaN -> 0, values truncated
         if let Ok(k) = impl_t.parse::<i64>() {
             return match mt {
-                MTok::Null => k == 0,
+                MTok::Null => m.null_is_zero && k == 0,
                 MTok::Degen => k == 0 || k == i32::MAX as i64 || k == i32::MIN as i64,
                 MTok::Val(v) => int_matches(k, v),
                 MTok::Root(s, q) => int_matches(k, s as f64 * q.sqrt()),
